@@ -67,6 +67,7 @@ def kernel_contract(interp, func, calls):
     fname = func.node.name
     defaults = func.defaults or []
     clsreq = class_requirement(func)
+    objparams_ = [n for t, n in sig if t == 'object']
 
     def contract(itp, args, kwargs):
         names = [n for t, n in sig]
@@ -95,9 +96,9 @@ def kernel_contract(interp, func, calls):
                 if not _is_number(v):
                     raise SymRaise('TypeError', ('%s(): argument %s must be a real number, not %s' % (fname, nme, type(v).__name__),))
                 scal[nme] = pysym._unwrap0(v)
+            elif t == 'object' and not isinstance(v, Obj):
+                scal[nme] = v            # a python object used as data (e.g. the laminate table Finput)
             elif t == 'object':
-                if not isinstance(v, Obj):
-                    raise SymRaise('AttributeError', ('%s(): argument %s is not an object' % (fname, nme),))
                 cname = v.cls.name if v.cls is not None else ''
                 if clsreq == 'contains' and 'Panel' not in cname:
                     raise SymRaise('ValueError', ('a Panel object must be given as input',))
@@ -116,8 +117,12 @@ def kernel_contract(interp, func, calls):
                 if not _is_number(cur):
                     raise SymRaise('TypeError', ('%s(): %s.%s must be a real number, not %s' % (fname, objname, '.'.join(chain), 'NoneType' if cur is None else type(cur).__name__),))
                 cur = pysym._unwrap0(cur)
-            values['.'.join(chain)] = cur
-        res = Opaque('kernel', fn=fname, model=modname, args=scal, panel=values)
+            values[('.'.join(chain)) if len(objparams_) == 1 else (objname + '.' + '.'.join(chain))] = cur
+        res = Opaque('kernel', fn=fname, model=modname, args={k: v for k, v in scal.items() if not hasattr(v, 'nfills')}, panel=values)
+        for k, v in scal.items():
+            if hasattr(v, 'nfills'):        # work matrix filled by this kernel (fg)
+                v.fill = res
+                v.nfills += 1
         calls.append(res)
         return res
     return contract
@@ -137,6 +142,7 @@ def class_requirement(func):
     return None
 
 
+CONN_MODULES = ['kCSSxcte', 'kCSSycte', 'kCBFxcte', 'kCBFycte', 'kCSB']
 PANEL_MODELS = ['plate_clt_donnell_bardell', 'plate_clt_donnell_bardell_w', 'cpanel_clt_donnell_bardell',
                 'kpanel_clt_donnell_bardell', 'plate_clt_donnell_bardell_num', 'cpanel_clt_donnell_bardell_num']
 MATRIX_KERNELS = ('fk0', 'fk0y1y2', 'fkG0', 'fkG0y1y2', 'fkM', 'fkMy1y2', 'fkAx', 'fkAy', 'fcA', 'fkL_num', 'fkG_num', 'calc_fint')
@@ -148,6 +154,17 @@ def install(interp, calls):
         mod = interp.module('compmech.panel.models.' + mn)
         for fn, f in list(mod.g.items()):
             if isinstance(f, Func) and fn in MATRIX_KERNELS:
+                interp.contracts[f.qualname] = kernel_contract(interp, f, calls)
+
+    for mn in CONN_MODULES:
+        mod = interp.module('compmech.panel.connections.' + mn)
+        for fn, f in list(mod.g.items()):
+            if isinstance(f, Func) and fn.startswith('fkC'):
+                interp.contracts[f.qualname] = kernel_contract(interp, f, calls)
+    for mn in ('clt_bardell_field', 'clt_bardell_field_w'):
+        mod = interp.module('compmech.panel.models.' + mn)
+        for fn, f in list(mod.g.items()):
+            if isinstance(f, Func) and fn in ('fuvw', 'fstrain', 'fg'):
                 interp.contracts[f.qualname] = kernel_contract(interp, f, calls)
 
     # C01 contract of read_stack: laminate object with ABD = spec(stack, plyts, laminaprops, offset)
@@ -173,6 +190,9 @@ def install(interp, calls):
         spec = Opaque('ABDspec', stack=list(stack), plyts=list(plyts), laminaprops=list(props), offset=b['offset'])
         lam.attrs['ABD'] = LamMatrix(spec, 6)
         lam.attrs['ABDE'] = LamMatrix(spec, 8)
+        lam.attrs['A'] = LamBlock(spec, 'A')
+        lam.attrs['B'] = LamBlock(spec, 'B')
+        lam.attrs['D'] = LamBlock(spec, 'D')
         lam.attrs['t'] = sum(plyts[1:], plyts[0]) if plyts else 0
         lam.attrs['offset'] = b['offset']
         lam.attrs['spec'] = spec
@@ -218,6 +238,19 @@ class LamMatrix(object):
         return ('LamMatrix', self.spec.key(), self.n, tuple((repr(k), repr(v)) for k, v in self.writes))
 
 
+class LamBlock(object):
+    """A / B / D block of the read_stack contract: entries are scalar atoms  A11(stack...)  (reals)"""
+    def __init__(self, spec, blk):
+        self.spec, self.blk = spec, blk
+
+    def sym_load(self, interp, k, node):
+        i, j = k
+        import hashlib
+        h = hashlib.sha1(repr(self.spec.key()).encode()).hexdigest()[:8]
+        i, j = min(i, j), max(i, j)
+        return P.atom('%s%d%d<lam:%s>' % (self.blk, i + 1, j + 1, h))
+
+
 def vkey(v):
     """structural key of any symbolic value (for equality of snapshots)"""
     if isinstance(v, Opaque):
@@ -226,7 +259,9 @@ def vkey(v):
         return v.key()
     if isinstance(v, P):
         return ('P', normal(v).text())
-    if isinstance(v, bool) or v is None or isinstance(v, (int, str)):
+    if isinstance(v, int) and not isinstance(v, bool):
+        return ('P', P.const(v).text())
+    if isinstance(v, bool) or v is None or isinstance(v, str):
         return ('v', repr(v))
     if isinstance(v, (list, tuple)):
         return tuple(vkey(x) for x in v)
